@@ -492,18 +492,31 @@ func serverScenarios(r *core.Run, eng *core.Eng, srv *core.Srv) {
 		fmt.Fprintf(&b, "(%d)", i)
 	}
 	s.MustExec(b.String())
-	n := r.N(30, 600)
+	n := r.N(30, 400)
+	reruns := 0
 	r.Parallel("server", 1, func(int) {
 		for i := 0; i < n; i++ {
 			sc := genScenario(r.Rand("server", i), i)
 			vio, stuck, incon := runScenario(r, eng, srv, sc)
+			if stuck != "" && len(vio) > 0 {
+				// something was already refuted before the stage got stuck: report that, do not wait again
+				for sig, detail := range vio {
+					r.Violation(sig, map[string]any{"scenario": sc, "seed": r.Seed, "detail": detail, "then_stuck_at": stuck})
+				}
+				r.Inconclusive("watchdog:" + stuck)
+				continue
+			}
 			if stuck != "" {
 				r.Inconclusive("watchdog:" + stuck)
-				// bounded progress: stuck twice more, alone (scenarios always run alone), at the same stage = violation
-				_, s2, _ := runScenario(r, eng, srv, sc)
-				_, s3, _ := runScenario(r, eng, srv, sc)
-				if s2 == stuck && s3 == stuck {
-					r.Violation("server:stuck:"+stuck, map[string]any{"scenario": sc, "seed": r.Seed, "what": "the stage did not complete within the 60 s watchdog three times in a row"})
+				// bounded progress: stuck twice more, alone (scenarios always run alone), at the same stage =
+				// violation. At most two scenarios are re-examined so that the run stays bounded.
+				if reruns < 2 {
+					reruns++
+					_, s2, _ := runScenario(r, eng, srv, sc)
+					_, s3, _ := runScenario(r, eng, srv, sc)
+					if s2 == stuck && s3 == stuck {
+						r.Violation("server:stuck:"+stuck, map[string]any{"scenario": sc, "seed": r.Seed, "what": "the stage did not complete within the watchdog three times in a row"})
+					}
 				}
 				continue
 			}
